@@ -26,6 +26,7 @@ def lemmas(tier):
     add("struct", [("l0", B), ("l1", B), ("l2", B), ("opt_b", B), ("opt_c", B)], "V.struct_labels(l0, l1, l2, opt_b, opt_c)", [], "generate_for_reference(structure): own + extended + mixed-in members, optional ones may be absent, label = conjunction of the members present")
     add("literal", [("l0", B), ("l1", B), ("l2", B), ("opt0", B), ("opt1", B), ("opt2", B)], "V.literal_labels(l0, l1, l2, opt0, opt1, opt2)", [], "generate_for_literal: members keep their own values, required ones present, label = conjunction of the members present (any subset optional)")
     add("and", [("l0", B), ("l1", B)], "V.and_labels(l0, l1)", [], "generate_for_and: merged object, label = conjunction")
+    add("and_uneven", [("l0", B), ("l1", B), ("l2", B), ("first_short", B)], "V.and_labels_uneven(l0, l1, l2, first_short)", [], "generate_for_and with items of different variant counts (the shorter list is cycled): exact contents per emitted object")
     add("enum", [("base", "int"), ("custom", "int")], "V.enum_labels(base, custom)", ["0 <= base < 3", "0 <= custom < 3"], "generate_for_reference(enum): declared value True, custom value True iff supportsCustomValues")
     add("envelope", [("kind", "int"), ("lp", B), ("has_params", B)], "V.envelope_labels(kind, lp, has_params)", ["0 <= kind < 3"], "generate_requests/notifications/responses: label = envelope label and params/result(/error) label, envelope members preserved")
     for use in range(3):
@@ -277,7 +278,25 @@ def check(tier):
             if not ok:
                 chk.violation("%s fails for label assignment %r: %s" % (site, r.args, detail), {"kind": "python", "code": code, "site": "C17 " + lid, "args": r.args})
             else:
-                chk.harness_error("counterexample for %s did not reproduce" % lid)
+                # state kept between calls?  look for one earlier call of the same lemma body after which it fails
+                import re
+
+                from vlib import histreplay
+
+                ranges = {}
+                for pre in l.pre:
+                    m = re.match(r"^0 <= (\w+) < (\d+)$", pre)
+                    if m:
+                        ranges[m.group(1)] = int(m.group(2))
+                found = None
+                if ranges and set(ranges) == set(r.args):
+                    call = "(lambda ok: (ok, %r))(bool(eval(%r, dict(globals(), **a))))" % (site, l.meta["expr"])
+                    found = histreplay.search("from props import c17rt as V", call, dict(r.args), histreplay.grid(ranges))
+                if found:
+                    pred, detail, hcode = found
+                    chk.violation("%s fails for %r when the generator already ran for %r in the same process (state kept between calls): %s" % (site, r.args, pred, detail), {"kind": "python", "code": hcode, "site": "C17 " + lid, "args": r.args, "after": pred})
+                else:
+                    chk.harness_error("counterexample for %s did not reproduce" % lid)
     leaf_tables(chk)
     corpus(chk, tier)
     chk.ev.coverage["functions_encoded"] = [evidence.fn_ref(f) for f in (tg.generate_for_array, tg.generate_for_tuple, tg.generate_for_map, tg.generate_for_or, tg.generate_for_and, tg.generate_for_literal, tg.generate_for_reference, tg.generate_for_property, tg.get_all_properties, tg.generate_requests, tg.generate_notifications, tg.generate_responses, tg.generate_for_base, tg.request_variants, tg.response_variants, tg.notify_variants)]
